@@ -127,7 +127,10 @@ def run(rep, tier, seed):
             rows = pipeline.reorder_rows(None, s["b"].eqs, [e[0] for e in gm.eqs], gm)
             for label, val in s["real"].items():
                 if isinstance(val, Exception):
-                    if isinstance(val, TypeError) and "not iterable" in str(val) and label == "inline-sparse":
+                    # D16: a second-derivative block that is scalar-valued (a Python float: "not iterable"; a length-one array:
+                    # row/col/data lengths differ) while the block is addressed as a vector block — no Ones(n) broadcast
+                    if label == "inline-sparse" and ((isinstance(val, TypeError) and "not iterable" in str(val)) or
+                                                     (isinstance(val, ValueError) and "all index and data arrays must have the same length" in str(val))):
                         known.append((case, f"{label}: {type(val).__name__}: {val}"))
                     else:
                         fails.append((case, f"HVP ({label}) raised {type(val).__name__}: {str(val)[:140]}"))
@@ -172,6 +175,10 @@ def run(rep, tier, seed):
                     a1, a2 = f(nd_reuse), f(nd_fresh)
                 except TypeError:
                     continue      # D16 class
+                except ValueError as ex:
+                    if "all index and data arrays must have the same length" in str(ex):
+                        continue  # D16 class (length-one array instead of a float)
+                    raise
                 if not np.allclose(a1, a2, rtol=1e-12, atol=1e-13, equal_nan=True):
                     fails.append((dict(model=gm.describe(), history="made_numerical(eqs, y0, make_hvp) then made_numerical(eqs, reversed layout, make_hvp)"),
                                   f"{what} generated a second time from the same symbolic equations (other variable layout) differs from a fresh "
